@@ -16,7 +16,7 @@ const KINDS: [&str; 6] = ["mem", "phys", "alt(mem)", "alt(phys)", "ovl(mem,mem)"
 /// a random source tree below /src: (path, None = dir | Some(bytes))
 fn gen_tree(rng: &mut Rng, thorough: bool) -> Vec<(String, Option<Vec<u8>>)> {
     let mut out: Vec<(String, Option<Vec<u8>>)> = vec![("/src".into(), None)];
-    let names = ["a", "b.txt", "é", "a.b", "ab", "empty"];
+    let names = ["a", "b.txt", "é", "a.b", "ab", "empty", "日本.txt"];
     let mut dirs = vec!["/src".to_string()];
     let n = 3 + rng.below(if thorough { 20 } else { 14 });
     for _ in 0..n {
@@ -145,6 +145,25 @@ pub fn run(o: &Opts) -> Report {
                 if now != *want {
                     rep.fail(mk(&format!("{}:bystander-changed", stage), format!("an entry outside the transferred subtree changed: {}", first_diff(&now, want)), &now, want, &batch));
                 }
+            }
+            // 1b. two DIFFERENT instances: a destination whose path string lies below the source's
+            // path string is not inside the source (it is on another filesystem) and must be accepted
+            if !same && sa != sb {
+                exec(&mut world, format!("op {} create_dir {}", sb, enc_str("/src")), &mut batch, &mut impl_outs);
+                let r = exec(&mut world, format!("op {} copy_dir {} {} {}", sa, enc_str("/src"), sb, enc_str("/src/in")), &mut batch, &mut impl_outs);
+                corr_points.push((batch.len() - 1, desc.clone()));
+                rep.evaluations += 1;
+                let in_uni = sub_universe(&tree, "/src", "/src/in");
+                let dst_in = exec(&mut world, snap_line(sb, &in_uni), &mut batch, &mut impl_outs);
+                corr_points.push((batch.len() - 1, desc.clone()));
+                if r != format!("ok {}", n_desc) {
+                    rep.fail(mk("copy_dir:cross-instance-same-name-refused", format!("copy_dir to another instance's /src/in returned {} (expected ok {})", r, n_desc), &r, "", &batch));
+                } else if reroot(&src_before, "/src", "/src/in") != parse_snap(&dst_in) {
+                    rep.fail(mk("copy_dir:copy-differs", format!("the cross-instance copy below the same name differs from the source: {}", first_diff(&dst_in, &render(&reroot(&src_before, "/src", "/src/in")))), &dst_in, &src_before, &batch));
+                }
+                let r = exec(&mut world, format!("op {} remove_dir_all {}", sb, enc_str("/src")), &mut batch, &mut impl_outs);
+                corr_points.push((batch.len() - 1, desc.clone()));
+                let _ = r;
             }
             // 2. refused existing destinations, no side effects
             let both_uni: Vec<String> = src_uni.iter().cloned().chain(vec!["/dst".to_string(), "/dst/occupied".into(), "/dst/copy".into(), "/dst/deep".into()]).collect();
